@@ -9,6 +9,7 @@ import (
 	"verif/mc/props/c04"
 	"verif/mc/props/c05"
 	"verif/mc/props/c06"
+	"verif/mc/props/c07"
 	"verif/mc/props/c09"
 	"verif/mc/props/c10"
 	"verif/mc/props/c11"
@@ -28,6 +29,7 @@ func main() {
 		"C04": c04.Prop,
 		"C05": c05.Prop,
 		"C06": c06.Prop,
+		"C07": c07.Prop,
 		"C09": c09.Prop,
 		"C10": c10.Prop,
 		"C11": c11.Prop,
